@@ -5,12 +5,15 @@ import (
 	"encoding/binary"
 	"fmt"
 	"hash/crc32"
+	"io"
 	"io/ioutil"
 	"os"
 	"path/filepath"
 	"regexp"
+	"runtime"
 	"sort"
 	"strconv"
+	"sync/atomic"
 
 	cs "github.com/lianxiangcloud/linkchain/consensus"
 	auto "github.com/lianxiangcloud/linkchain/libs/autofile"
@@ -23,6 +26,26 @@ var castagnoli = crc32.MakeTable(crc32.Castagnoli)
 // walHandle is what NewWAL returns (the concrete type is unexported).
 type walHandle interface {
 	cs.WAL
+	VerifInterposeGroupWriter(wrap func(io.Writer) io.Writer)
+}
+
+// tickingWriter forwards the encoder's writes to the group and runs the group's rotation (what the ticker
+// goroutine does once the head is over its limit) right after chosen Group.Write calls have returned.
+type tickingWriter struct {
+	g     *auto.Group
+	calls int
+	after map[int]bool
+	fired int
+}
+
+func (t *tickingWriter) Write(p []byte) (int, error) {
+	n, err := t.g.Write(p)
+	t.calls++
+	if t.after[t.calls] {
+		t.g.RotateFile()
+		t.fired++
+	}
+	return n, err
 }
 
 // openWAL does what ConsensusState.OpenWAL does: NewWAL + Start. It returns the bytes that
@@ -116,6 +139,8 @@ type layout struct {
 	Restarts  int
 	// Misaligned lists the files (index > 0) whose first byte is not the first byte of a record.
 	Misaligned []int
+	// TicksBetweenWrites: rotations fired by the interposed writer between two Group.Write calls.
+	TicksBetweenWrites int
 }
 
 var idxRe = regexp.MustCompile(`^` + walBase + `\.([0-9]{3,})$`)
@@ -242,13 +267,50 @@ func execPlan(p *plan, dir string) (w walHandle, L *layout, vs []viol) {
 		return nil, L, vs
 	}
 	var pv interface{}
+	var rotDone chan int
+	var rotStop int32
+	for i := 0; i < p.PreRotate; i++ {
+		w.Group().RotateFile()
+		L.Rotations++
+	}
+	var tw *tickingWriter
+	if len(p.TickAfter) > 0 {
+		tw = &tickingWriter{g: w.Group(), after: p.TickAfter}
+		w.VerifInterposeGroupWriter(func(io.Writer) io.Writer { return tw })
+	}
+	if p.Rotator > 0 {
+		rotDone = make(chan int, 1)
+		g := w.Group()
+		go func() {
+			n := 0
+			defer func() {
+				recover() // a panic of RotateFile surfaces through the oracles on the files
+				rotDone <- n
+			}()
+			for n < p.Rotator && atomic.LoadInt32(&rotStop) == 0 {
+				g.RotateFile()
+				n++
+				runtime.Gosched()
+			}
+		}()
+	}
 	func() {
 		defer func() {
 			if r := recover(); r != nil {
 				pv = r
 			}
 		}()
+		if p.Rotator > 0 {
+			// the rotator finishes its (bounded) number of rotations before the log is closed
+			defer func() {
+				n := <-rotDone
+				rotDone <- n
+			}()
+		}
 		for _, o := range p.Ops {
+			if p.Rotator > 0 {
+				runtime.Gosched() // give the rotator a turn between (and, if the encoder ever splits a record, inside) writes
+			}
 			switch o.K {
 			case "w":
 				if o.Sync {
@@ -274,6 +336,14 @@ func execPlan(p *plan, dir string) (w walHandle, L *layout, vs []viol) {
 			}
 		}
 	}()
+	if rotDone != nil {
+		atomic.StoreInt32(&rotStop, 1)
+		L.Rotations += <-rotDone
+	}
+	if tw != nil {
+		L.Rotations += tw.fired
+		L.TicksBetweenWrites = tw.fired
+	}
 	if pv != nil {
 		vs = append(vs, viol{"write/panic", fmt.Sprintf("the WAL panicked during the write phase: %v", pv), nil})
 		if w != nil {
